@@ -697,7 +697,13 @@ impl Check for C18 {
                 len: match g.below(5) {
                     0 => 0,
                     1 => 1,
-                    2 if g.chance(1, 20) => *g.pick(&[9usize, 16, 63, 64, 65, 255, 256, 257, 1000, 1024, 4096]),
+                    2 if g.chance(1, 20) => {
+                        if g.coin() {
+                            *g.pick(&[9usize, 16, 63, 64, 65, 255, 256, 257, 1000, 1024, 4096])
+                        } else {
+                            g.log_uniform(9, 20_000)
+                        }
+                    }
                     _ => g.urange(0, 8),
                 },
                 dup: g.coin(),
@@ -712,10 +718,10 @@ impl Check for C18 {
                     1 => 1,
                     2 => 2,
                     // block / word / page boundaries and a few sizes in between
-                    3 if g.chance(1, 150) => {
+                    3 if g.chance(1, 100) => {
                         let pool = [63usize, 64, 65, 127, 128, 129, 255, 256, 257, 511, 512, 1023, 1024, 1025, 2047, 2048, 2049, 4096, 8192];
                         let big = [65_535usize, 65_536, 65_537];
-                        let s = if g.chance(1, 8) { *g.pick(&big) } else if g.coin() { *g.pick(&pool) } else { g.urange(65, 5000) };
+                        let s = if g.chance(1, 8) { *g.pick(&big) } else if g.coin() { *g.pick(&pool) } else { g.log_uniform(65, 70_000) };
                         if nested { s.min(1100) } else { s }
                     }
                     _ => g.urange(0, if nested { 8 } else { 64 }),
